@@ -17,9 +17,10 @@ structure ParCrit (S : Type) where
   ongoingByLayer : List Nat
   upperBounds : List Int            -- `upper_bounds`, one cell per thread *at construction time*
 
-/-- `custom(.., nb_threads = U)` (+ optional `set_primal`) + `initialize` -/
+/-- `custom(..)` / `with_nb_threads(U)` (+ optional `set_primal`) + `initialize`: one cell of
+    `upper_bounds` per thread (`with_nb_threads` resizes it since fix D3), idle marker `isize::MIN` -/
 def ParCrit.init (P : Problem S) (primal : Option (Int × List Dec)) (dedup : Bool) (U : Nat) : ParCrit S :=
-  { base := SeqSt.init P primal dedup, ongoingByLayer := List.replicate (P.nbVars + 1) 0, upperBounds := List.replicate U iMax }
+  { base := SeqSt.init P primal dedup, ongoingByLayer := List.replicate (P.nbVars + 1) 0, upperBounds := List.replicate U iMin }
 
 /-- outcome of `get_workload` -/
 inductive WorkLoad (S : Type)
@@ -86,12 +87,22 @@ def ParCrit.notifyFinished (c : ParCrit S) (i : Nat) (depth : Nat) : Option (Par
   if c.ongoing = 0 then none
   else if i < c.upperBounds.length then
     match decLayer c.ongoingByLayer depth with
-    | some ol => some { c with ongoing := c.ongoing - 1, upperBounds := c.upperBounds.set i iMax, ongoingByLayer := ol }
+    | some ol => some { c with ongoing := c.ongoing - 1, upperBounds := c.upperBounds.set i iMin, ongoingByLayer := ol }
     | none => none
   else none
 
-/-- `abort_search(reason, current_ub)` -/
-def ParCrit.abortSearch (c : ParCrit S) (currentUb : Int) : ParCrit S :=
+/-- `abort_search(reason, current_ub)` (since fix D4): the recorded bound covers the aborting node, every
+    node in progress (`upper_bounds`) and the best node left in the fringe (`fringeTop` = the bound of the
+    node `fringe.pop()` hands out, if any); a later abort can only raise it -/
+def ParCrit.abortSearch (c : ParCrit S) (currentUb : Int) (fringeTop : Option Int) : ParCrit S :=
+  let ub := c.upperBounds.foldl max currentUb
+  let ub := match fringeTop with | some t => max ub t | none => ub
+  let ub := if c.base.abort then max ub c.base.bestUb else ub
+  { c with base := { c.base with abort := true, fringe := [], bestUb := ub } }
+
+/-- the formula of the pinned commit (before `fix:` D4), kept for the violation witness: the bound of the
+    aborting node alone (and the next `get_workload` then overwrote it by `best_lb`) -/
+def ParCrit.abortSearchOld (c : ParCrit S) (currentUb : Int) : ParCrit S :=
   { c with base := { c.base with abort := true, fringe := [],
                                  bestUb := if c.base.bestUb = iMax then currentUb else max currentUb c.base.bestUb } }
 
